@@ -255,6 +255,8 @@ def allele_table(table, seq, pseudo):
     d["GEN*15.001"] = {"mutations": [["GEN", "deletion:e3,down"], snv(s, 180, None, "rs180", "functional")]}
     if table == "richd":      # plus a deletion-insertion (as CYP2A6*27 has)
         d["GEN*16.001"] = {"mutations": [[390, f"del{s[389:391]}ins{COMP[s[389]]}", "rs390", "frameshift"]]}
+        # the first base change of the MNV of *5 also exists as a substitution of its own (as CYP2D6 rs1058164 does)
+        d["GEN*17.001"] = {"mutations": [[310, f"{s[309]}>{COMP[s[309]]}", "rs310a", "functional"]]}
     return d
 
 
